@@ -17,4 +17,6 @@ func registerStreams(m map[string]Stream) {
 	m["c12"] = c12Stream{}
 	m["c11"] = c11Stream{}
 	m["c07"] = c07Stream{}
+	m["c13"] = c13Stream{}
+	m["c18"] = c18Stream{}
 }
